@@ -4,7 +4,7 @@ P: contracts tagged C07 (required => emitted, emitted => declared lemmas) when t
 B: run-time contract of serialize / serialization_schema with jsonschema (Draft 2020-12) as the
 oracle, over the C04 type and value space x global exclude_defaults / exclude_none x aliaser x
 additional_properties x field / registered / dynamic conversions."""
-from drivers import ser_schema
+from drivers import ser_late, ser_schema
 from vf.pcheck import run_p, targets_for
 
 from .common import ASSUME_CHILDREN, TRUSTED, generic_replay
@@ -22,6 +22,7 @@ def run(report, tier, seed):
     if run_p(report, PROP, tier):
         report.assumptions.append(ASSUME_CHILDREN)
     ser_schema.run(report, tier, seed)
+    ser_late.run(report, tier, seed, "schema")
 
 
 replay = generic_replay
